@@ -257,9 +257,67 @@ def eval_dump(v):
     return Eval(failures, ["dump:" + type(v).__name__], nontrivial=True, ident=repr(v), evals=evals, sample={"value": repr(v)})
 
 
+MIXED_SHAPES = ["keys-typed-first", "keys-str-first", "typed-key-str-value", "str-key-typed-value", "items", "values", "nested-both"]
+
+
+def eval_mixed(case):
+    """A typed scalar and the str that looks exactly like its written form in ONE document, in key / value / item positions
+    and both orders: the dumper classifies every scalar on its own text and type, never by what it decided for another node."""
+    import yaml
+    from vlib.compare import bisimilar
+    v, shape_i = case
+    shape = MIXED_SHAPES[shape_i % len(MIXED_SHAPES)]
+    # the text the dumper writes for v (taken from the reference classification side: dump alone, strip document end)
+    try:
+        s = yaml.dump(v, Dumper=yaml.SafeDumper).strip()
+    except Exception as e:
+        return Eval([Failure("dump-mixed:raised:%s" % exc_key(e), exc_msg(e))], ["dump-mixed"], nontrivial=True, ident=repr(case))
+    if s.endswith("\n..."):
+        s = s[:-4]
+    if s.endswith("..."):
+        s = s[:-3].strip()
+    if s.startswith("!!") or s.startswith("'") or s.startswith('"'):
+        s = str(v)
+    doc = {"keys-typed-first": [{v: "a"}, {s: "b"}], "keys-str-first": [{s: "b"}, {v: "a"}], "typed-key-str-value": {v: s},
+           "str-key-typed-value": {s: v}, "items": [v, s, v, s], "values": {"k": v, "j": s, "l": v},
+           "nested-both": [{v: s}, {s: v}, [s, v]]}[shape]
+    failures = []
+    evals = 0
+    dumpers = [("py", yaml.SafeDumper)] + ([("c", yaml.CSafeDumper)] if have_c() else [])
+    loaders = [("py", yaml.SafeLoader)] + ([("c", yaml.CSafeLoader)] if have_c() else [])
+    for dname, D in dumpers:
+        for flow in (None, True):
+            evals += 1
+            try:
+                text = yaml.dump(doc, Dumper=D, default_flow_style=flow)
+            except Exception as e:
+                failures.append(Failure("dump-mixed:%s:raised:%s" % (dname, exc_key(e)), "doc=%r %s" % (doc, exc_msg(e))))
+                continue
+            for lname, L in loaders:
+                evals += 1
+                try:
+                    back = yaml.load(text, Loader=L)
+                except Exception as e:
+                    failures.append(Failure("dump-mixed:%s>%s:reload-raised:%s" % (dname, lname, exc_key(e)), "doc=%r text=%r %s" % (doc, text, exc_msg(e))))
+                    continue
+                d = bisimilar(doc, back, key_order=False)
+                if d:
+                    failures.append(Failure("dump-mixed:%s>%s:%s:%s:changed" % (dname, lname, type(v).__name__, shape),
+                                            "%s\ndoc=%r text=%r reloaded=%r" % (d, doc, text, back)))
+    return Eval(failures, ["dump-mixed:" + shape, "dump-mixed:" + type(v).__name__], nontrivial=True, ident=repr(case), evals=evals,
+                sample={"value": repr(v), "lookalike": s, "shape": shape})
+
+
+def mixed_cases():
+    typed = st.one_of(gv.ints(), st.floats(allow_nan=False), st.booleans(), st.none(), gv.dates(), gv.datetimes(),
+                      st.sampled_from([0, 1, -1, 10, 0.5, 1e3, float("inf"), True, False, None]))
+    return st.tuples(typed, st.integers(0, len(MIXED_SHAPES) - 1))
+
+
 def arms(tier):
     return [
         Arm("exhaustive", eval_short, enum=enum_short, exhaustive=True),
         Arm("members", eval_member, member_texts, quick=40000, thorough=2000000),
         Arm("dump-values", eval_dump, dump_values, quick=8000, thorough=400000),
+        Arm("dump-mixed", eval_mixed, mixed_cases, quick=4000, thorough=200000),
     ]
